@@ -335,6 +335,11 @@ def run(tier, seed):
     ref = mk()
     axes = [(p, list(vs)) for p, vs in ref._grid_values.items()]
     dims = [len(vs) for _, vs in axes]
+    if any(len(set(vs)) != len(vs) for _, vs in axes):
+      # a DOUBLE range a few ulps wide gives the same grid value several times: the index of a suggested value is then
+      # not recoverable from the value, so this space cannot be compared with the index model
+      rep.count('grid_axis_with_repeated_values_skipped')
+      continue
     n = r.choice([3, 6])
     ins = [(r.random() < 0.4, r.randrange(1, 5)) for _ in range(n)]
     d = mk()
